@@ -7,14 +7,17 @@ import numpy as np
 from common import Kernel, call_impl, coq_list, fl, flv, grid_vec, q, qv
 
 ID = "C18"
-N_CASES = {"quick": 3600, "thorough": 40000, "search": 4000}
+N_CASES = {"quick": 2400, "thorough": 40000, "search": 4000}
 RULE = ("seeded streams: projection (single / stacked / paired, dyadic grid points times 2^k, directions of any non-zero "
         "length incl. zero and tiny); Line constructor / from_points / reference_points; 3-D and 2-D line pairs through "
         "integer lattice points of [-3,3]^3 / [-4,4]^2 biased towards every incidence pattern (shared defining points, "
         "a defining point on the other line, parallel, coincident, skew, coplanar crossing); float (dyadic) lines of "
         "magnitude 1e-3..1e3 that meet by construction; lattice lines inside axis-aligned planes (signed-zero cross "
         "products), int64 inputs, generic (skew) float lines with coordinates ~1e-3, direction vectors of length "
-        "2^-45..2^20 for the projection forms, extreme scales in the quick tier; non-trivial = the call returned; distinct by hash of inputs")
+        "2^-45..2^20 for the projection forms (straddling Line's 1e-8 threshold, which is also probed at, one ulp below "
+        "and one ulp above), extreme direction lengths 2^-1060..2^-480 and 2^480..2^1020 at unit-size positions "
+        "(proj_*_extreme), arbitrary non-dyadic double lines meeting up to rounding (oracle only), extreme scales in the "
+        "quick tier; non-trivial = the call returned; distinct by hash of inputs")
 TRUSTED = ["Coq 8.16.1 kernel, vm_compute for the correspondence evaluation",
            "axioms (Print Assumptions): ClassicalDedekindReals.sig_forall_dec, sig_not_dec, "
            "FunctionalExtensionality.functional_extensionality_dep, Classical_Prop.classic (all Coq stdlib Reals)",
@@ -27,8 +30,8 @@ CASE_IMPORTS = [("PW.model", "M_line")]
 DEFINITIONAL = ["C18_projection_stacked_is_rowwise", "C18_line_methods_delegate"]
 ASSUMPTIONS = ["the real-number projection theorem cannot see overflow / underflow of the squared norm of a direction "
                "vector: direction lengths outside about [1e-150, 1e150] are judged by the correspondence and the oracle only "
-               "(stream proj_extreme; known finding projection_direction_overflow until "
-               "fixes/C18-projection-extreme-lengths.diff is applied)",
+               "(stream proj_*_extreme; the defect found there was repaired by fixes/C18-projection-extreme-lengths.diff, "
+               "/repo commit 36e7d06)",
                "Line refuses non-zero directions whose components are all <= 1e-8 (vg.almost_zero): stated as "
                "C18_line_accepts_any_nonzero_direction_refuted / known finding line_rejects_tiny_nonzero_direction",
                "theorems are about exact real arithmetic; binary64 rounding is covered only by the tolerance of the "
@@ -271,8 +274,9 @@ def gen_cases(rng, n, tier):
         elif u < 0.63:
             # float lines at the small end of the property's range (coordinates about 1e-3), generic position: mostly
             # clearly skew, with a triple product far below any absolute tolerance
-            sc = 2.0 ** rng.choice([-10, -10, -9, -8])
-            p0, q0, p1, q1 = ([x * sc for x in grid_vec(rng, -6, 6, 4)] for _ in range(4))
+            # (coordinates up to 1.2e-3: the triple product of a skew pair is then of order 1e-9 or less)
+            sc = 2.0 ** rng.choice([-12, -12, -12, -11])
+            p0, q0, p1, q1 = ([x * sc for x in grid_vec(rng, -5, 5, 4)] for _ in range(4))
             if p0 != q0 and p1 != q1:
                 cases.append({"kind": "isect3_float_small", "p0": p0, "q0": q0, "p1": p1, "q1": q1})
         elif u < 0.69:
@@ -550,13 +554,14 @@ def oracle(c, o):
     return fs[0][1] if fs else None
 
 
-KNOWN = {"overflow": "projection_direction_overflow", "tiny_line": "line_rejects_tiny_nonzero_direction"}
+# the overflow class (|direction| outside [1e-150, 1e150]) was repaired in /repo commit 36e7d06: no longer a listed finding,
+# a failure there is a violation
+KNOWN = {"tiny_line": "line_rejects_tiny_nonzero_direction"}
 
 
 def classify(c, o, failure, disagrees):
     """a listed finding only when EVERY failure of the case belongs to a listed class (site + input class):
-    project_point_to_line / Line.project with |direction| outside [1e-150, 1e150]; Line(...) raising ValueError for a
-    non-zero direction with all components <= 1e-8"""
+    Line(...) raising ValueError for a non-zero direction with all components <= 1e-8"""
     fs = _failures(c, o)
     if not fs or any(t not in KNOWN for t, _ in fs):
         return None
